@@ -176,6 +176,14 @@ def targeted_programs(dev):
             h = gen.header(f"emit/r-{inv}-{rep}", dev, Fraction(1), r.choice([950, 100]), lws, flags={"comp": False, "norm": False, "robot": False})
             h["ops"] = [r_call(r, h["wl"]["maxv"], inv) for _ in range(4)]
             progs.append(h)
+    # every spelling of the direction: the two documented ones are valid, everything else (also other letter cases) is not
+    lws = [gen.mk_plate("plate", 2, 2, 0, 10, [0, 0, 0, 0])]
+    h = gen.header("emit/r-directions", dev, Fraction(1), 950, lws, flags={"comp": False, "norm": False, "robot": False})
+    h["ops"] = [{"op": "emit", "fn": "reagent_distribution",
+                 "args": {"srack": "S", "s1": I(1), "s2": I(8), "drack": "D", "d1": I(1), "d2": I(12), "vol": 20000, "dir": d}}
+                for d in ("left_to_right", "right_to_left", "LEFT_TO_RIGHT", "Left_to_right", "RIGHT_TO_LEFT", "Right_To_Left",
+                          "left_to_right ", " right_to_left", "left-to-right", "ltr", "", "up", "0", "1")]
+    progs.append(h)
     # multi-dispense reduction: volumes just above and below max_volume / k
     for M in (950, 200, 1000):
         lws = [gen.mk_plate("plate", 2, 2, 0, 10, [0, 0, 0, 0])]
